@@ -228,6 +228,13 @@ def guarded(fn):
             return 'raised', '{}: {}{}{}'.format(type(ex).__name__, ex, loc, remote)
 
 
+def _assign(a):
+    """Schedules named by rule (independent of how many chunks the code under test decides to submit)."""
+    if a == 'alternate':
+        return lambda k, n: k % n
+    return a
+
+
 def log_info():
     """Summary of what the virtual pools of the last call did."""
     pools = CTL.log
@@ -278,7 +285,7 @@ def bilform_call(spec, SL=None, nodes=None):
         SL, nodes = new_SL(spec['curve'], spec['mesh'], spec.get('cache_dir'))
     te, tr = elems_of(nodes, spec['test']), elems_of(nodes, spec['trial'])
     ref = ref_matrix(spec['curve'], spec['mesh'], spec['test'], spec['trial'])
-    CTL.configure(spec.get('cpu', 1), spec.get('assign'), spec.get('rank', 0), record_results=True)
+    CTL.configure(spec.get('cpu', 1), _assign(spec.get('assign')), spec.get('rank', 0), record_results=True)
     st, val = guarded(lambda: SL.bilform_matrix(te, tr, use_mp=spec['use_mp']))
     info = log_info()
     problems = []
@@ -353,7 +360,7 @@ def work_paths(item):
         variants = [(False, None, None), (True, 3, None)]
         if not inline:
             variants.append((True, 16, None))
-            variants.append((True, 2, [k % 2 for k in range(M)]))
+            variants.append((True, 2, 'alternate'))
         for use_mp, cpu, assign in variants:
             spec = {'clause': 'paths', 'fn': 'bilform_matrix', 'curve': cname, 'mesh': kind, 'test': test_r, 'trial': trial_r,
                     'use_mp': use_mp, 'cpu': cpu or 1, 'assign': assign}
@@ -545,7 +552,7 @@ def linform_call(spec, M0=None, nodes=None):
         M0, nodes = new_M0(spec['curve'], spec['mesh'], 'test', spec.get('cache_dir'))
     el = elems_of(nodes, spec['test'])
     ref = ref_vector(spec['curve'], spec['mesh'], spec['test'])
-    CTL.configure(spec.get('cpu', 1), spec.get('assign'), spec.get('rank', 0), record_results=True)
+    CTL.configure(spec.get('cpu', 1), _assign(spec.get('assign')), spec.get('rank', 0), record_results=True)
     st, val = guarded(lambda: M0.linform_vector(el, use_mp=spec['use_mp']))
     info = log_info()
     problems = []
@@ -680,7 +687,7 @@ def est_call(spec):
     cname, npoly, fn = spec['curve'], spec['npoly'], spec['fn']
     tasks, sob, wl2 = est_refs(cname, npoly)
     elems, est, res = est_setup(cname, npoly)
-    CTL.configure(spec['cpu'], spec.get('assign'), spec.get('rank', 0), record_results=True)
+    CTL.configure(spec['cpu'], _assign(spec.get('assign')), spec.get('rank', 0), record_results=True)
     if fn == 'estimate_sobolev':
         st, val = guarded(lambda: est.estimate_sobolev(elems, res, use_mp=True))
         ref, expect = sob, tasks['time'] + tasks['space']
